@@ -359,7 +359,15 @@ func c18Probes() []*pgen.Case {
 		c.Feature("probe", name)
 		return c
 	}
+	allow := func(c *pgen.Case, imps ...string) *pgen.Case {
+		c.AllowImports = append(c.AllowImports, imps...)
+		return c
+	}
 	return []*pgen.Case{
+		// enum @error together with wrapErrorsUsing: fmt for the action, the wrapping package, nothing else
+		allow(mk("enum_error_using", "type HA struct{ K KA; L []KA }\ntype HB struct{ K KB; L []KB }\n\n// goverter:converter\n// goverter:enum:unknown @error\n// goverter:wrapErrorsUsing vcase/errs\ntype Converter interface {\n\t// goverter:enum:map A1 B1\n\tA(source KA) (KB, error)\n\tH(source HA) (HB, error)\n}\n"), "fmt", "vcase/errs"),
+		allow(mk("enum_panic_using", "type HA struct{ K KA }\ntype HB struct{ K KB }\n\n// goverter:converter\n// goverter:enum:unknown @panic\n// goverter:wrapErrorsUsing vcase/errs\n// goverter:extend SE\ntype Converter interface {\n\t// goverter:enum:map A1 B1\n\tA(source KA) KB\n\tH(source HA) HB\n\tS(source In) (Out, error)\n}\n"), "fmt", "vcase/errs"),
+		allow(mk("enum_error_wraperrors", "type HA struct{ K KA }\ntype HB struct{ K KB }\n\n// goverter:converter\n// goverter:enum:unknown @error\n// goverter:wrapErrors\ntype Converter interface {\n\t// goverter:enum:map A1 B1\n\tA(source KA) (KB, error)\n\tH(source HA) (HB, error)\n}\n"), "fmt"),
 		// wrapErrors on the converter, every method opts out
 		mk("wraperrors_all_optout", "// goverter:converter\n// goverter:extend SE\n// goverter:wrapErrors\ntype Converter interface {\n\t// goverter:wrapErrors no\n\tA(source In) (Out, error)\n\t// goverter:wrapErrors no\n\tB(source []In) ([]Out, error)\n}\n"),
 		// wrapErrors globally but nothing can fail
